@@ -12,8 +12,9 @@ SMALL = [
     ("callee-with-stop", {"main": "PROGRAM g IN a DO\nIF a = 2 THEN GOTO halt ;\nx0 := a ;\nGOTO fin ;\nhalt : STOP ;\nfin : x0 := x0 + 1\nEND\n"
                                   "x := RUN g WITH 1 END ;\ny := RUN g WITH 2 END ;\nz := 5"}),
 ]
+SMALL.append(("saturating-arithmetic", {"main": "x := 2147483646 ;\ny := x + 5 ;\nz := y - 1 ;\nn := 2 ;\nLOOP n DO\nw := z + 3 ;\nz := w\nEND ;\nu := n - 9"}))
 # which two locations the exhaustive alphabet toggles, per small program
-SMALL_LOCS = [[("main", 2), ("main", 6)], [("main", 1), ("q", 3)], [("main", 5), ("main", 8)]]
+SMALL_LOCS = [[("main", 2), ("main", 6)], [("main", 1), ("q", 3)], [("main", 5), ("main", 8)], [("main", 3), ("main", 6)]]
 # thorough tier only: three more programs (WHILE + nested call, GOTO loop with label line, two files with equal line numbers)
 SMALL += [
     ("while+nested-call", {"main": "PROGRAM g IN a DO\nx0 := a + 1\nEND\nPROGRAM f IN a DO\nx0 := RUN g WITH RUN g WITH a END END\nEND\nn := 2 ;\nWHILE n != 0 DO\n"
@@ -27,7 +28,7 @@ SMALL_LOCS += [[("main", 5), ("main", 9)], [("main", 2), ("main", 4)], [("lib", 
 def plan(tier, seed, pid):
     specs = []
     L_ = 5 if tier == "quick" else 6
-    for pi in range(3 if tier == "quick" else len(SMALL)):
+    for pi in range(4 if tier == "quick" else len(SMALL)):
         # split the exhaustive set by first two ops to spread it over the workers
         for a in range(8):
             for b in range(8):
@@ -79,7 +80,7 @@ def build_cases(spec):
     else:
         r = common.rng(spec["seed"], "dbg", spec["chunk"])
         for _ in range(spec["n"]):
-            o = programs.Opts(max_defs=3)
+            o = programs.Opts(max_defs=3, boundary=(r.random() < 0.25))   # some programs saturate their arithmetic
             p = programs.Gen(r, o).program()
             lines = programs.to_lines(p, programs.Speller(r))
             if r.random() < 0.4:
@@ -114,7 +115,8 @@ def run(spec):
             continue
         avail = sorted(set((f, l) for f, l, _ in po["pb"]) | set((f, l) for _, f, l in po["li"]))
         hs = [rand_history(r, avail, r.randint(20, spec["hlen"])) for _ in range(spec["nh"])]
-        cases.append({"mode": "dbg", "main": main, "files": files, "opts": [("budget", 4000)] + [("hist", " ".join(h)) for h in hs]})
+        cases.append({"mode": "dbg", "main": main, "files": files,
+                      "opts": [("budget", 4000), ("disasm", len(cases) % 2)] + [("hist", " ".join(h)) for h in hs]})
         keep.append((name, files, main, hs))
     outs, _ = common.run_batch(cases, case_cpu=60)
     for (name, files, main, hs), c, o in zip(keep, cases, outs):
@@ -128,6 +130,8 @@ def walk(pid, name, files, main, hs, case, out, part, checker):
         return
     if not out["ok"]:
         part["stats"]["rejected"] += 1
+        if name != "generated" and name != "replay":
+            part["inconclusive"].append("the fixed small program '%s' is rejected by the compiler: %s" % (name, out["errors"][:2]))
         return
     model = dbgmodel.Model(out)
     fresh = out["fresh"]
